@@ -1,6 +1,7 @@
 # -*- coding: utf-8 -*-
 """Evaluate one DI configuration against the real clastic: construction verdict vs model,
 then request traces vs the reference onion.  Returns findings tagged by property."""
+import zlib
 from . import spies, probe
 from .models import di
 
@@ -27,7 +28,7 @@ def short_cfg(cfg):
         return d
     return {'levels': [{'mws': [mw(m) for m in l['mws']], 'resources': l['resources']} for l in cfg['levels']],
             'prefix_bindings': [l.get('prefix_bindings') or [] for l in cfg['levels'][:-1]],
-            'build_via_add': bool(cfg.get('build_via_add')), 'render_via_factory': bool(cfg['route'].get('render_via_factory')), 'siblings': [[m['mid'] for m in sb['mws']] + (['embedded'] if sb.get('embedded') else []) for sb in (cfg['route'].get('siblings') or [])], 'decoys': cfg['route'].get('decoys') or [], 'resp_flavour': cfg.get('resp_flavour') or {}, 'exc_flavour': cfg.get('exc_flavour') or {},
+            'build_via_add': bool(cfg.get('build_via_add')), 'render_via_factory': bool(cfg['route'].get('render_via_factory')), 'siblings': [[m['mid'] for m in sb['mws']] + (['embedded'] if sb.get('embedded') else []) for sb in (cfg['route'].get('siblings') or [])], 'decoys': cfg['route'].get('decoys') or [], 'resp_flavour': cfg.get('resp_flavour') or {}, 'exc_flavour': cfg.get('exc_flavour') or {}, 'ctx_flavour': cfg.get('ctx_flavour'),
             'route': {'bindings': cfg['route']['bindings'], 'resources': cfg['route']['resources'],
                       'mws': [mw(m) for m in cfg['route']['mws']], 'endpoint': f(cfg['route']['endpoint']),
                       'render': f(cfg['route'].get('render')), 'methods': cfg['route'].get('methods')},
@@ -103,7 +104,10 @@ def outcome_of(ex, tr, rt):
     return ['status', ex.status]
 
 
-def evaluate(cfg, requests=('hit', 'hit2', 'hit-slashes', 'hit-absent', 'hit-absent', 'hit-long', 'mistyped', '404', '405'), want=('C01', 'C02', 'C03', 'C04'), stats=None,
+TEXTS = ['caf\u00e9', '\u00c3\u00a9', 'e\u0301d', '\u65e5\u672c', '\ufb01n', '\u212bng', 'S\u00c2\u00a7', '\u00fc\u00f1', 'z\u0142']
+
+
+def evaluate(cfg, requests=('hit', 'hit2', 'hit-slashes', 'hit-absent', 'hit-absent', 'hit-long', 'hit-text', 'hit-text-absent', 'mistyped', '404', '405'), want=('C01', 'C02', 'C03', 'C04'), stats=None,
              shape_only=False, traces=None):
     """-> (findings, info).  info: {'model': summary, 'constructed': bool, 'exchanges': n, ...}"""
     findings = []
@@ -155,6 +159,11 @@ def evaluate(cfg, requests=('hit', 'hit2', 'hit-slashes', 'hit-absent', 'hit-abs
         tok = 't%d' % tok_n[0]
         all_b = spies.prefix_binding_names(cfg) + list(cfg['route']['bindings'])
         n_decoys = len(cfg['route'].get('decoys') or []) + sum(1 for _ in (cfg['route'].get('siblings') or []))
+        text = kind.startswith('hit-text')
+        if text:
+            # the same requests with text outside ASCII in the str segments (precomposed, decomposed, compatibility
+            # characters, Latin-1 pairs that read as UTF-8 bytes, CJK): the functions must receive exactly that text
+            kind = 'hit-absent' if kind == 'hit-text-absent' else 'hit'
         if kind in ('hit', 'hit2', 'hit-slashes', 'hit-absent', 'hit-long'):
             if kind == 'hit-slashes' and not cfg['route']['bindings']:
                 return
@@ -162,6 +171,13 @@ def evaluate(cfg, requests=('hit', 'hit2', 'hit-slashes', 'hit-absent', 'hit-abs
             if (kind == 'hit-absent' and last_op not in ('?', '*')) or (kind == 'hit-long' and last_op not in ('*', '+')):
                 return
             vals = {b: ('v%d_%s' % (tok_n[0], b)) for b in all_b}
+            if text:
+                if not all_b:
+                    return
+                # one class of text for the whole path (hit-text-absent) or a different one per segment
+                step = 0 if kind == 'hit-absent' else 1
+                k0 = zlib.crc32(repr(sorted(all_b)).encode())
+                vals = {b: TEXTS[(k0 + tok_n[0] + i * step) % len(TEXTS)] + str(tok_n[0]) for i, b in enumerate(all_b)}
             last_type = cfg['route'].get('last_type') if cfg['route']['bindings'] else None
             if last_type and not last_op:
                 vals[cfg['route']['bindings'][-1]] = str(1000 + tok_n[0])
@@ -225,7 +241,7 @@ def evaluate(cfg, requests=('hit', 'hit2', 'hit-slashes', 'hit-absent', 'hit-abs
                     for p, s in e[2].items():
                         stats['src:%s:%s' % (s[0], kinds.get((e[1], p), '?'))] += 1
         # C01: the framework must never mis-call a function of an accepted configuration
-        if ex.exc is not None and is_callsite_typeerror(ex.exc):
+        if ex.exc is not None and id(ex.exc) not in tr['made'] and is_callsite_typeerror(ex.exc):     # (not one a spy raised on purpose)
             msg = str(ex.exc)
             involved = [k for (fid, p), k in kinds.items() if p in msg or fid.split('.')[0] in msg]
             tag = 'kwonly' if ('keyword-only' in msg) else ('posonly' if 'positional-only' in msg else 'other')
